@@ -399,14 +399,15 @@ cJSON *add_element_to_peer(struct peer *p, const cJSON *request)
 		return response;
 	}
 
-	if (unlikely(find_fetchers_for_element(e) != 0)) {
-		free_element(e);
-		return create_error_response_from_request(p, request, INTERNAL_ERROR, "reason", "could not notify fetching peer");
-	}
-
 	if (unlikely(element_table_put(e->path, e) != HASHTABLE_SUCCESS)) {
 		free_element(e);
 		return create_error_response_from_request(p, request, INTERNAL_ERROR, "reason", "element table full");
+	}
+
+	if (unlikely(find_fetchers_for_element(e) != 0)) {
+		element_table_remove(e->path);
+		free_element(e);
+		return create_error_response_from_request(p, request, INTERNAL_ERROR, "reason", "could not notify fetching peer");
 	}
 
 	list_add_tail(&e->element_list, &p->element_list);
